@@ -360,6 +360,22 @@ def run(chk: Check) -> None:
                        'WITHOUT the save context: its class is identified by the global default loader although the load side resolves it through the loader of the outer context -- a '
                        'per-save custom loader with its own identifier scheme cannot load what it saved'), node=c, kind='nested-save-passes-context')
     chk.units['nested_saves'] = n_nested
+    # a class that replaces recreate_from still restores what its subclasses declare: it goes through load_instance_state / load_members (or super().recreate_from)
+    sv_ = prog.cls('persistence.Savable')
+    for c_ in prog.subclasses(sv_):
+        rf_ = c_.methods.get('recreate_from')
+        if rf_ is None:
+            continue
+        reach = {last_name(x) for x in calls_in_func(rf_)} | {norm(x.args[0]).split('.')[-1] for x in calls_in_func(rf_, 'call_with_super_check') if x.args}
+        ok_ = bool(reach & {'load_instance_state', 'load_members', 'recreate_from'})
+        chk.ob('TAB-member-kinds', rf_, ok_, f'{c_.name}.recreate_from restores the declared members through load_instance_state / load_members' + ('' if ok_ else
+               ': it rebuilds the object by hand from the keys it knows, so members a subclass declares (auto_persist / persist()) are saved but never restored'), kind='recreate-restores-declared')
+    # members declared by EVERY base are inherited: a class with two Savable bases gets the union, not just the set attribute lookup finds first
+    wr_ = prog.func('persistence.auto_persist.wrapped')
+    src_ = [norm(n.value) for n in ast.walk(wr_.node) if isinstance(n, ast.Assign) and norm(n.targets[0]).endswith('._auto_persist')]
+    union = any('__mro__' in t or '__bases__' in t or 'mro()' in t for t in src_) or any(isinstance(x, (ast.For, ast.comprehension)) and ('__mro__' in norm(x.iter) or '__bases__' in norm(x.iter)) for x in ast.walk(wr_.node))
+    chk.ob('PROV-auto-persist-copy', wr_, union, 'the decorator starts from the members of ALL bases' + ('' if union else ': it copies `cls._auto_persist`, i.e. the one set that attribute lookup '
+           'finds first along the MRO -- with two bases that both declare members, those of the second base are silently not persisted'), kind='inherits-all-bases')
     from .common import outcome_read_after_cancel_test
     outcome_read_after_cancel_test(chk, 'DISP-future-state', 'persistence.SavableFuture.save_instance_state', 'saving a future in any state (a cancelled one included)')
     # 5. futures: a branch per state, exception saved when failed
